@@ -29,12 +29,15 @@ def act_script(name, d, outcome):
         return s + [['RETURN', name]]
     if outcome == 'fail':
         return s + [['RAISE', 'KeyError', name]]
+    if outcome == 'tick':
+        # an activity that pauses in usim.delay(): it is suspended by a plain timed suspension, not by a notification
+        return [['DELAYLOOP', 1, max(d, 1), [[] for _ in range(max(d, 1))]], ['RETURN', name]]
     if outcome == 'nest':
         return s + [['COLLECT', [name + 'x', name + 'y'], [[['D', 3], ['RETURN', 1]], [['D', 3], ['PROBE', 'now'], ['RETURN', 2]]]], ['RETURN', name]]
     raise ValueError(outcome)
 
 
-def program(kind, acts, count=None, consumer='eager'):
+def program(kind, acts, count=None, consumer='eager', until_now=False):
     names = ['k%d' % (i + 1) for i in range(len(acts))]
     scripts = [act_script(n, d, o) for n, (d, o) in zip(names, acts)]
     if kind == 'collect':
@@ -44,7 +47,11 @@ def program(kind, acts, count=None, consumer='eager'):
         op = ['FIRST', names, scripts, count, bodies] + ([1] if consumer == 'break1' else [])
     # (the trailing postponement lets a cancel race with the caller's normal completion)
     caller = [['TRY', [op]], ['PROBE', 'now'], ['D', 4], ['PROBE', 'now'], ['INSTANT']]
-    return {'_nops': 60, '_meta': {'kind': kind, 'acts': [list(a) for a in acts], 'count': count, 'consumer': consumer},
+    if until_now:
+        # the caller is interrupted by a date that is due at the very moment the block is entered
+        caller = [['UNTIL', 'now', ['EQ', 0], [op, ['PROBE', 'now']]], ['PROBE', 'now'], ['D', 4], ['PROBE', 'now'], ['INSTANT']]
+    return {'_nops': 60, '_meta': {'kind': kind, 'acts': [list(a) for a in acts], 'count': count, 'consumer': consumer,
+                                   'until_now': until_now},
             'roots': [['root', [['SCOPE', 'm', [['DO', 'caller', caller]]], ['PROBE', 'now']]]]}
 
 
@@ -55,7 +62,7 @@ def BOUNDS(tier):
 def cases(tier):
     out = []
     nmax = 3 if tier == 'quick' else 4
-    opts = [(d, o) for d in (0, 1, 2) for o in ('ok', 'fail')] + [(0, 'nest'), (1, 'nest')]
+    opts = [(d, o) for d in (0, 1, 2) for o in ('ok', 'fail')] + [(0, 'nest'), (1, 'nest'), (2, 'tick')]
     for n in range(0, nmax + 1):
         for acts in itertools.product(opts if n <= 3 else opts[:6], repeat=n):
             if sum(1 for a in acts if a[1] == 'fail') > 2 or sum(1 for a in acts if a[1] == 'nest') > 1:
@@ -69,6 +76,9 @@ def cases(tier):
                     if n >= 3 and sum(1 for a in acts if a[1] != 'ok') > 1 and consumer != 'eager':
                         continue
                     out.append(program('first', acts, count, consumer))
+    for acts in itertools.product([(1, 'ok'), (2, 'ok'), (2, 'tick')], repeat=2):
+        out.append(program('collect', acts, until_now=True))
+        out.append(program('first', acts, 2, 'eager', until_now=True))
     return out
 
 
@@ -88,6 +98,11 @@ def judge(ctx, program, hit_caller=False):
     failed = [(i, r[1], r[3], r[4]) for i, r in enumerate(log) if r[0] == 'abort' and r[1] in names
               and not isinstance(r[4], (GeneratorExit, CancelTask))]
     cancelled_caller = fin is not None and fin[1] == 'exc' and isinstance(fin[3], (CancelTask, GeneratorExit))
+    if meta.get('until_now'):
+        # the notification holds on entry: the call is abandoned at its first suspension point, within that time step
+        if fin is None or fin[1] != 'exc' or not isinstance(fin[3], CancelScope) or fin[2] != t0:
+            msgs.append('until(time == now) did not interrupt the caller of %s at %r: %r' % (meta['kind'], t0, fin and fin[1:3]))
+        cancelled_caller = True
     descendants = set(names) | {n + 'x' for n in names} | {n + 'y' for n in names}
     L = fin[0] if fin else None
     # nothing of the activities runs after the operation ended
@@ -117,7 +132,7 @@ def judge(ctx, program, hit_caller=False):
                 if fin[2] != t_fail:
                     msgs.append('first failure at %r but collect raised at %r' % (t_fail, fin[2]))
         else:
-            dur = [d + (3 if o == 'nest' else 0) for d, o in acts]
+            dur = [(max(d, 1) if o == 'tick' else d + (3 if o == 'nest' else 0)) for d, o in acts]
             t_end = t0 + (max(dur) if dur else 0)
             if fin is None or fin[1] != 'end' or fin[3] != names or fin[2] != t_end:
                 msgs.append('collect should return %r at %r, got %r' % (names, t_end, fin and fin[1:]))
